@@ -45,6 +45,7 @@ def run(tier, seed):
     rng = random.Random(seed * 7919 + 18)
     quick = tier != 'thorough'
     items = edge.edge_programs(rng, 300 if quick else 6000)
+    items += edge.cross_programs(rng, 450 if quick else None)
     g_items, _ = c01.gen_items(rng, 300 if quick else 5000, c01.FEATURES | {'yield', 'end', 'raw'})
     items += [(n, s, a, False) for n, s, a in g_items]
     for fam, fn in (('case', lambda s: genprog.gen_case_program(s, False)[1]), ('wait', lambda s: genprog.gen_wait_program(s)[1]),
@@ -56,7 +57,7 @@ def run(tier, seed):
     for n, s, a in runner.corpus_programs(('example', 'ok', 'fail')):
         items.append((n, s, list(a) or ['-O3'], n.endswith('.fail.nmfu')))
     jobs = [{'id': i, 'src': s, 'args': a, 'name': 'p', 'want': ['codegen']} for i, (n, s, a, must) in enumerate(items)]
-    res = compiler.run_jobs(jobs, nworkers=14, timeout=90)
+    res = compiler.run_jobs(jobs, nworkers=14, timeout=240)
     events = []
     for i, (n, s, a, must) in enumerate(items):
         events.append({'src': i, 'outcome': classify(res[i]), 'must': bool(must)})
